@@ -697,8 +697,9 @@ impl Simk {
 
     fn new_fixed(&mut self, ring: usize, origin: u32) -> Result<(u32, u32), i32> {
         let r = &mut self.rings[ring];
+        // Linux: no file table means no allocation bitmap, and that is -ENFILE (K-conf: direct-alloc).
         let Some(table) = r.fixed.as_mut() else {
-            return Err(-libc::ENXIO);
+            return Err(-libc::ENFILE);
         };
         let n = table.len() as u32;
         let mut slot = None;
@@ -746,6 +747,8 @@ impl Simk {
         }
         match table[slot as usize].take() {
             Some(id) => {
+                // Linux restarts the allocation search at a freed slot.
+                r.fixed_hint = slot;
                 let d = &mut self.descs[id as usize];
                 d.open = false;
                 d.closes.push(via);
@@ -1523,6 +1526,14 @@ impl Simk {
                 let a = self.new_desc_for(ring, sqe.file_index(), serial);
                 let b = self.new_desc_for(ring, sqe.file_index(), serial);
                 if a < 0 || b < 0 {
+                    // Linux takes back the end it had installed (K-conf: pipe-direct).
+                    if a >= 0 {
+                        if sqe.file_index() != 0 {
+                            self.close_fixed(ring, a as u32, "pipe-undo");
+                        } else {
+                            self.close_regular(ring, a, "pipe-undo");
+                        }
+                    }
                     self.finish(serial, a.min(b), 0);
                 } else {
                     let arr = sqe.addr() as usize;
